@@ -230,3 +230,13 @@ mod tests {
         assert_eq!(h2, 0x96b98587cacc83d6);
     }
 }
+
+#[cfg(feature = "verif-hooks")]
+impl MurmurHash3X64128 {
+    /// Verification hook: the hasher state with the buffer masked to its fill level.
+    pub fn verif_state(&self) -> (u64, u64, u64, [u8; 16], usize) {
+        let mut buf = [0u8; 16];
+        buf[..self.buf_len].copy_from_slice(&self.buf[..self.buf_len]);
+        (self.h1, self.h2, self.total, buf, self.buf_len)
+    }
+}
